@@ -1,2 +1,3 @@
 import RimuProofs.Props.C04
 import RimuProofs.Props.C05
+import RimuProofs.Props.C20
